@@ -10,6 +10,11 @@ CLAIMS = {
    note="Trusted: rustc MIR/trait resolution, the zfacts exporter, regex-syntax/regex-automata determinisation, the oracle transcriptions (cross-checked against each other each run). Assumes regex::Regex implements its documented semantics and uN::from_str accepts exactly in-range ASCII digit runs.",
    ref="4/C08"),
 }
+CLAIMS["C09"] = dict(
+   technique="regular-language equivalence by DFA product + MIR rules (error-propagation slices, path-enumerated decision tables for normalize / label tables / separator table)",
+   text="Decides for ALL strings that the language the PEP 440 parser accepts equals Appendix B with ASCII case folding (two independent oracles, shortest witness on failure), and the structural necessary conditions of 'prints the normal form with every number preserved': no discarded ParseIntError, label table total on the regex's spellings with the PEP 440 mapping, every Ok passes normalize() whose implicit-number table is extracted, Display uses the normal-form separator/label/epoch table, `check` uses the same parser. Idempotence and 'normal form compares equal' are value laws and are not decided.",
+   note="Trusted: rustc MIR, zfacts, regex-syntax/regex-automata, oracle transcriptions (cross-checked each run). Assumes regex and u32::from_str behave as documented.",
+   ref="4/C09")
 REASONS = {}
 
 def main():
